@@ -65,7 +65,7 @@ pub fn run(c: &Campaign, st: &mut Stats) -> Result<Vec<Found>, String> {
             .arg(format!("-seed={}", (c.seed.wrapping_mul(1000003).wrapping_add(w as u64 + 1)) % 4_000_000_000 + 1))
             .arg(format!("-max_len={}", c.max_len))
             .arg("-len_control=0")
-            .arg("-timeout=25")
+            .arg("-timeout=120")
             .arg("-rss_limit_mb=4096")
             .arg("-print_final_stats=1")
             .arg(format!("-artifact_prefix={}/w{}-", arts.display(), w))
@@ -164,33 +164,37 @@ pub fn campaign_for(prop_id: &str, c: &Campaign, st: &mut Stats) -> Result<(), (
         let pl = payload(c.target, &f.input);
         let fail = Failure::new(format!("libFuzzer {} artifact of target {}", f.kind, c.target));
         let path = crate::runner::write_replay(prop_id, &fail, &json!({"kind": "custom", "payload": pl}));
-        let mut child = match std::process::Command::new(&exe).arg(prop_id).arg("--replay").arg(&path).stdout(std::process::Stdio::piped()).stderr(std::process::Stdio::null()).spawn() {
-            Ok(c) => c,
-            Err(_) => continue,
-        };
-        let start = std::time::Instant::now();
+        // replay in a fresh process; a replay that does not finish is tried once more with a generous limit, so that a
+        // stall of the machine (the campaign itself saturates all cores) is not taken for non-termination
         let mut status = None;
-        while start.elapsed() < std::time::Duration::from_secs(40) {
-            match child.try_wait() {
-                Ok(Some(s)) => {
-                    status = Some(s);
-                    break;
+        let mut out = String::new();
+        for limit in [40u64, 240] {
+            let mut child = match std::process::Command::new(&exe).arg(prop_id).arg("--replay").arg(&path).stdout(std::process::Stdio::piped()).stderr(std::process::Stdio::null()).spawn() {
+                Ok(c) => c,
+                Err(_) => break,
+            };
+            let start = std::time::Instant::now();
+            while start.elapsed() < std::time::Duration::from_secs(limit) {
+                match child.try_wait() {
+                    Ok(Some(s)) => {
+                        status = Some(s);
+                        break;
+                    }
+                    _ => std::thread::sleep(std::time::Duration::from_millis(50)),
                 }
-                _ => std::thread::sleep(std::time::Duration::from_millis(50)),
             }
-        }
-        let out = if status.is_none() {
-            let _ = child.kill();
-            let _ = child.wait();
-            String::new()
-        } else {
-            let mut s = String::new();
+            if status.is_none() {
+                let _ = child.kill();
+                let _ = child.wait();
+                st.count("fuzz.replays_not_finished");
+                continue;
+            }
             if let Some(mut o) = child.stdout.take() {
                 use std::io::Read;
-                let _ = o.read_to_string(&mut s);
+                let _ = o.read_to_string(&mut out);
             }
-            s
-        };
+            break;
+        }
         let confirmed = match status {
             None => prop_id == "C07",
             Some(s) => s.code() == Some(1),
